@@ -77,6 +77,93 @@ def skeleton(rule) -> str:
     return " & ".join(outs)
 
 
+def _func_tokens(fn, depth: int = 0, seen=None) -> list:
+    """Source-order tokens of a condition function that carry its *decisions*: comparison / boolean operators, literal
+    constants, names of called methods and helpers — not variable names, messages or docstrings.  Module-level helper functions
+    it calls are followed (two levels)."""
+    import ast
+    import inspect
+    import textwrap
+
+    seen = seen if seen is not None else set()
+    target = getattr(fn, "__func__", fn)
+    if target in seen or depth > 2:
+        return []
+    seen.add(target)
+    try:
+        tree = ast.parse(textwrap.dedent(inspect.getsource(target)))
+    except (OSError, TypeError, SyntaxError):
+        return ["<no-source>"]
+    glob = getattr(target, "__globals__", {})
+    mod = getattr(target, "__module__", None)
+    out: list = []
+
+    class V(ast.NodeVisitor):
+        def visit_FunctionDef(self, node):
+            body = node.body
+            if body and isinstance(body[0], ast.Expr) and isinstance(getattr(body[0], "value", None), ast.Constant) \
+                    and isinstance(body[0].value.value, str):
+                body = body[1:]          # docstring
+            for st in body:
+                self.visit(st)
+
+        def visit_Compare(self, node):
+            self.visit(node.left)
+            for op, c in zip(node.ops, node.comparators):
+                out.append(type(op).__name__)
+                self.visit(c)
+
+        def visit_BoolOp(self, node):
+            out.append(type(node.op).__name__)
+            self.generic_visit(node)
+
+        def visit_UnaryOp(self, node):
+            out.append(type(node.op).__name__)
+            self.generic_visit(node)
+
+        def visit_BinOp(self, node):
+            out.append(type(node.op).__name__)
+            self.generic_visit(node)
+
+        def visit_Constant(self, node):
+            out.append(repr(node.value))
+
+        def visit_JoinedStr(self, node):
+            return               # f-string: a message
+
+        def visit_Return(self, node):
+            out.append("return")
+            self.generic_visit(node)
+
+        def visit_Call(self, node):
+            f = node.func
+            name = f.attr if isinstance(f, ast.Attribute) else f.id if isinstance(f, ast.Name) else "?"
+            if name == "fail":
+                out.append("fail")       # the message is not a decision
+                return
+            out.append("call:" + name)
+            for a in node.args:
+                self.visit(a)
+            for k in node.keywords:
+                out.append(str(k.arg) + "=")
+                self.visit(k.value)
+            if isinstance(f, ast.Attribute):
+                self.visit(f.value)
+            if isinstance(f, ast.Name):
+                g = glob.get(f.id)
+                if inspect.isfunction(g) and getattr(g, "__module__", None) == mod:
+                    out.append("{")
+                    out.extend(_func_tokens(g, depth + 1, seen))
+                    out.append("}")
+
+    V().visit(tree)
+    return out
+
+
+def condition_tokens(rule) -> list:
+    return _func_tokens(rule._condition_function)
+
+
 def describe(rule, key: str, source: str, in_default: bool) -> dict:
     cf = rule._condition_function
     owner = getattr(cf, "__self__", None)
@@ -85,9 +172,14 @@ def describe(rule, key: str, source: str, in_default: bool) -> dict:
         ncomm = len(rule.commute())
     except (AssertionError, ValueError):
         ncomm = 0  # commute() is not applicable to this pattern (variadic commutative op / OrValue clone)
+    import hashlib
+
+    toks = condition_tokens(rule)
     return {
         "key": key,
         "cls": cls,
+        "cond_tokens": toks,
+        "cond_hash": hashlib.sha1(" ".join(toks).encode()).hexdigest()[:16],
         "skeleton": skeleton(rule),
         "remove_nodes": bool(rule.remove_nodes),
         "as_function": bool(rule.as_function),
@@ -159,6 +251,48 @@ def enumerate_rules() -> tuple[list[dict], list[str], list[str]]:
     return list(rows.values()), default_keys, exported
 
 
+def condition_data() -> dict:
+    """Literal data the rules' condition functions decide with, read from the live objects / source."""
+    import ast
+    import inspect
+    import textwrap
+
+    from onnxscript.rewriter.rules.common import _basic_rules as B
+    from onnxscript.rewriter.rules.common import _collapse_slices as S
+    from onnxscript.rewriter.rules.common import _fuse_hardswish as H
+    from onnxscript.rewriter.rules.common import _remove_expand_before_binary_op as E
+    from onnxscript.rewriter.rules.fusion import _layer_norm as LN
+
+    data = {
+        "cast_cast_allowed": sorted((int(a), int(b)) for a, b in B.CastCast._allowed_type2_type3),
+        "broadcast_binary_ops": list(E._BROADCAST_BINARY_OPS),
+        "int64_max": int(S._INT64_MAX),
+        "layer_norm_compute_types": sorted(int(t) for t in LN.LAYER_NORM_COMPUTE_TYPES),
+    }
+    # is_singleton_value(<operand>, <expected>, rtol=<r>) calls of the hard-sigmoid base check, in source order
+    tree = ast.parse(textwrap.dedent(inspect.getsource(H._HardSigmoidFusionBase.check)))
+    hs = []
+    for node in ast.walk(tree):
+        if isinstance(node, ast.Call) and getattr(node.func, "id", getattr(node.func, "attr", "")) == "is_singleton_value":
+            name = node.args[0].id if isinstance(node.args[0], ast.Name) else "?"
+            expected = ast.literal_eval(node.args[1])
+            rtol = None
+            for k in node.keywords:
+                if k.arg == "rtol":
+                    rtol = ast.literal_eval(k.value)
+            hs.append((node.lineno, name, expected, rtol))
+    data["hardsigmoid_constants"] = [(n, e, r) for _, n, e, r in sorted(hs)]
+    return data
+
+
+def _rat(v) -> str:
+    from fractions import Fraction
+    if v is None:
+        return "none"
+    f = Fraction(str(v)) if isinstance(v, float) else Fraction(v)
+    return f"some (({f.numerator} : Rat) / {f.denominator})"
+
+
 def render(rows, default_keys, exported) -> str:
     out = [
         "/-! GENERATED by harness/extract_rules.py from /repo's working tree — do not edit. -/",
@@ -172,6 +306,7 @@ def render(rows, default_keys, exported) -> str:
         "  commutes : Nat",
         "  inDefault : Bool",
         "  source : String",
+        "  condHash : String",
         "  deriving DecidableEq, Repr",
         "",
         "def rows : List RuleRow := [",
@@ -179,7 +314,7 @@ def render(rows, default_keys, exported) -> str:
     body = []
     for r in rows:
         body.append(
-            "  { key := %s, cls := %s, skeleton := %s, removeNodes := %s, asFunction := %s, commutes := %d, inDefault := %s, source := %s }"
+            "  { key := %s, cls := %s, skeleton := %s, removeNodes := %s, asFunction := %s, commutes := %d, inDefault := %s, source := %s, condHash := %s }"
             % (
                 _lean_str(r["key"]),
                 _lean_str(r["cls"]),
@@ -189,6 +324,7 @@ def render(rows, default_keys, exported) -> str:
                 r["commutes"],
                 "true" if r["in_default"] else "false",
                 _lean_str(r["source"]),
+                _lean_str(r["cond_hash"]),
             )
         )
     out.append(",\n".join(body))
@@ -197,6 +333,17 @@ def render(rows, default_keys, exported) -> str:
     out.append("def defaultRules : List String := [" + ", ".join(_lean_str(k) for k in default_keys) + "]")
     out.append("")
     out.append("def exportedRules : List String := [" + ", ".join(_lean_str(k) for k in exported) + "]")
+    d = condition_data()
+    out.append("")
+    out.append("/-! Literal data of condition functions (live objects / source of /repo). -/")
+    out.append("def castCastAllowed : List (Nat × Nat) := [" + ", ".join(f"({a}, {b})" for a, b in d["cast_cast_allowed"]) + "]")
+    out.append("def broadcastBinaryOps : List String := [" + ", ".join(_lean_str(o) for o in d["broadcast_binary_ops"]) + "]")
+    out.append(f"def int64Max : Int := {d['int64_max']}")
+    out.append("def layerNormComputeTypes : List Nat := [" + ", ".join(str(t) for t in d["layer_norm_compute_types"]) + "]")
+    out.append("/-- (operand, expected value, rtol) of each `is_singleton_value` test in `_HardSigmoidFusionBase.check`; `is_int` = exact compare. -/")
+    out.append("def hardSigmoidConstants : List (String × Rat × Option Rat × Bool) := ["
+               + ", ".join(f"({_lean_str(n)}, ({__import__('fractions').Fraction(str(e)).numerator} : Rat) / {__import__('fractions').Fraction(str(e)).denominator}, {_rat(r)}, {'true' if isinstance(e, int) else 'false'})"
+                           for n, e, r in d["hardsigmoid_constants"]) + "]")
     out.append("end OV.Gen.C05")
     return "\n".join(out) + "\n"
 
@@ -208,6 +355,10 @@ def regenerate() -> dict:
     changed = not GEN.exists() or GEN.read_text() != text
     if changed:
         GEN.write_text(text)
+    # readable companion of the hashes, for the violation message (not an input of any theorem)
+    import json
+    tok_file = GEN.parent.parent.parent.parent / "harness" / "c05_cond_tokens.current.json"
+    tok_file.write_text(json.dumps({r["key"]: r["cond_tokens"] for r in rows}, indent=0))
     return {"rows": rows, "default": dk, "exported": ex, "changed": changed}
 
 
